@@ -526,7 +526,7 @@ def run(ctx):
                                "implrun flag-table/flag-eval translator (reflection dump of TOptions)", "python harness; Python json module as JSON parser of mlr output"]
     ctx.assumptions = ["JSON reader/writer, CSV/TSV/... codecs are not modelled here (C01); conversions across formats are tied by mlr runs only",
                        "A->B = A->C->B is proved in Coq only parametrically in reader/writer functions that satisfy round-trip (C02_conv_via)"]
-    deps = ["C02/Harness.vo", "C02/Proofs.vo", "C02/ProofsE.vo", "C02/FlagProofs.vo", "C02/FlagExtra.vo"]
+    deps = ["C02/Harness.vo", "C02/Proofs.vo", "C02/ProofsE.vo", "C02/ProofsF.vo", "C02/FlagProofs.vo", "C02/FlagExtra.vo"]
     parts = set((os.environ.get("C02_PARTS") or "1,2,3").split(","))   # developer switch; the registered commands run all parts
     flags_mod = c02_flags if "2" in parts else None
     if flags_mod is not None:
